@@ -673,3 +673,92 @@ Example C08_gradient_row_ok_finite_nonvacuous :
   forallb is_finite ([(-1)%float] ++ [(-0.5)%float] ++ [(-1.5)%float]) = true /\
   row_ok vac_lp [0.25%float] [0.5%float] [(-1)%float] [Some (-1)%float] = true.
 Proof. vm_compute. repeat split. Qed.
+
+(** ---- the model's own answers pass the decidable statements; a correspondence implies the property ---- *)
+From Elfi Require Import Proofs.C08_ModelOk.
+
+(** One evaluation: for every well-formed model and every supplied point whose columns are distinct
+    user nodes covering the requested parameters, the value the modelled evaluation returns passes
+    [ok].  (When the modelled evaluation FAILS on a well-formed request - name clash with "_p_pdf" /
+    "_joint", a requested parameter that is its own parent - the specification is still defined and
+    [ok] is false for the answer "raised": hence the hypothesis that a value was returned.) *)
+Theorem C08_model_ok :
+  forall m P log aug x t,
+    wfsrc m -> NoDup (map fst x) ->
+    (forall k, In k (map fst x) -> has k (s_nodes m) = true) ->
+    (forall p, In p P -> In p (map fst x)) ->
+    evaluate m P log x = Ok t ->
+    ok {| p_model := m; p_params := P; p_log := log; p_augmented := aug; p_point := x; p_impl := Some t |} = true.
+Proof. exact model_ok_single. Qed.
+Print Assumptions C08_model_ok.
+
+Theorem C08_agree_implies_ok :
+  forall c,
+    wfsrc (p_model c) -> NoDup (map fst (p_point c)) ->
+    (forall k, In k (map fst (p_point c)) -> has k (s_nodes (p_model c)) = true) ->
+    (forall p, In p (p_params c) -> In p (map fst (p_point c))) ->
+    p_impl c <> None ->
+    agree c = true -> ok c = true.
+Proof. exact agree_ok_single. Qed.
+Print Assumptions C08_agree_implies_ok.
+
+(** pdf / logpdf on an array (scalar, vector, matrix; any shape, any data): the model's own answer,
+    whenever it is a value, passes [ok_call]; a correspondence on an answered call implies it. *)
+Theorem C08_model_ok_call :
+  forall m P c ans,
+    wfsrc m -> wf_request m P = true ->
+    eval_call m P c = Some ans ->
+    ok_call m P {| c_log := c_log c; c_shape := c_shape c; c_data := c_data c; c_impl := Some ans |} = true.
+Proof. exact model_ok_call. Qed.
+Print Assumptions C08_model_ok_call.
+
+Theorem C08_agree_implies_ok_call :
+  forall m P c, wfsrc m -> wf_request m P = true -> c_impl c <> None -> agree_call m P c = true -> ok_call m P c = true.
+Proof. exact agree_ok_call. Qed.
+Print Assumptions C08_agree_implies_ok_call.
+
+Theorem C08_agree_implies_ok_history :
+  forall h,
+    (forall e, In e h -> wfsrc (e_model e)) ->
+    (forall e c, In e h -> In c (e_calls e) -> c_impl c <> None) ->
+    agree_t (History h) = true -> ok_t (History h) = true.
+Proof. exact agree_ok_history. Qed.
+Print Assumptions C08_agree_implies_ok_history.
+
+(** gradient_logpdf: the model's own answer passes [ok_gcall] when every row is [row_exact] (nothing
+    asked where the stencil reaches -inf or a non-finite value; on a finite stencil the cleaned
+    central differences are not nan and are within tolerance of the analytic entries supplied). *)
+Theorem C08_model_ok_gradient :
+  forall lp dim c ans,
+    0 < dim ->
+    grad_call lp dim c = Some ans ->
+    (forall hs rows, expand_h dim (step_of c) = Some hs ->
+                     rows_ofA (List.length (g_data c)) dim (g_data c) = Some rows ->
+                     rows_exact lp hs rows (analytic_rows dim c) = true) ->
+    ok_gcall lp dim {| g_step := g_step c; g_shape := g_shape c; g_data := g_data c; g_analytic := g_analytic c;
+                       g_impl := Some ans |} = true.
+Proof. exact model_ok_gcall. Qed.
+Print Assumptions C08_model_ok_gradient.
+
+Theorem C08_model_row_ok :
+  forall lp hs x g an,
+    List.length hs = List.length x -> grad_point lp hs x = Some g -> row_exact lp hs x an = true ->
+    row_ok lp hs x g an = true.
+Proof. exact row_ok_model. Qed.
+Print Assumptions C08_model_row_ok.
+
+(** Non-vacuity: the hierarchical model with a simulator, a two-row matrix: the hypotheses hold and the
+    model's answer is a value; the gradient example of wave 3 is row_exact; a zero stepsize makes the
+    central difference 0/0 = nan, the row is not row_exact and the model's own (cleaned) row fails. *)
+Example C08_model_ok_example :
+  wfsrc_b ex_hier = true /\ wf_request ex_hier ex_hier_P = true
+  /\ (exists ans, eval_call ex_hier ex_hier_P (ex_call [2; 2] [71; 70; 81; 80]%Z None) = Some ans
+                  /\ ok_call ex_hier ex_hier_P (ex_call [2; 2] [71; 70; 81; 80]%Z (Some ans)) = true)
+  /\ rows_exact vac_lp [0.25%float] vac_grows [] = true
+  /\ row_exact vac_lp [0%float] [0.5%float] [] = false
+  /\ option_map (fun g => row_ok vac_lp [0%float] [0.5%float] g []) (grad_point vac_lp [0%float] [0.5%float]) = Some false.
+Proof.
+  split; [vm_compute; reflexivity|]. split; [vm_compute; reflexivity|].
+  split; [eexists; split; vm_compute; reflexivity|].
+  vm_compute. repeat split.
+Qed.
